@@ -53,6 +53,38 @@ func GetCheckpointDir(term uint64, index uint64) string {
 	return fmt.Sprintf("%016x-%016x", term, index)
 }
 
+// checkpointIncompleteMarker is the file that exists next to a checkpoint directory while that
+// directory is being written by a local backup or filled by a snapshot transfer. A directory left
+// behind by a crash in the middle of either is recognised by it and not used as a backup.
+// (The name has no "-", so the checkpoint listings do not see it.)
+func checkpointIncompleteMarker(checkpointPath string) string {
+	return path.Join(path.Dir(checkpointPath),
+		"incomplete_"+strings.Replace(path.Base(checkpointPath), "-", "_", -1))
+}
+
+// MarkCheckpointIncomplete must be called before a checkpoint directory is created or changed.
+func MarkCheckpointIncomplete(checkpointPath string) error {
+	f, err := os.OpenFile(checkpointIncompleteMarker(checkpointPath), os.O_CREATE|os.O_WRONLY, common.FILE_PERM)
+	if err != nil {
+		return err
+	}
+	err = f.Sync()
+	f.Close()
+	return err
+}
+
+// MarkCheckpointComplete is called once the checkpoint directory holds the whole checkpoint.
+func MarkCheckpointComplete(checkpointPath string) {
+	os.Remove(checkpointIncompleteMarker(checkpointPath))
+}
+
+var errBackupIncomplete = errors.New("the backup is incomplete")
+
+func isCheckpointIncomplete(checkpointPath string) bool {
+	_, err := os.Stat(checkpointIncompleteMarker(checkpointPath))
+	return err == nil
+}
+
 var batchableCmds map[string]bool
 
 type RockRedisDBConfig struct {
@@ -156,6 +188,7 @@ func purgeOldCheckpoint(keepNum int, checkpointDir string, latestSnapIndex uint6
 				break
 			}
 			os.RemoveAll(sortedNameList[i])
+			os.Remove(checkpointIncompleteMarker(sortedNameList[i]))
 			dbLog.Infof("clean checkpoint : %v", sortedNameList[i])
 		}
 	}
@@ -833,9 +866,15 @@ func (r *RockDB) backupLoop() {
 					os.RemoveAll(rsp.backupDir)
 				}
 				rsp.rsp = []byte(rsp.backupDir)
-				verifCrashPoint("ck.save.before")
-				err = ck.Save(rsp.backupDir, rsp.started)
-				verifCrashPoint("ck.save.after")
+				err = MarkCheckpointIncomplete(rsp.backupDir)
+				if err == nil {
+					verifCrashPoint("ck.save.before")
+					err = ck.Save(rsp.backupDir, rsp.started)
+					verifCrashPoint("ck.save.after")
+					if err == nil {
+						MarkCheckpointComplete(rsp.backupDir)
+					}
+				}
 				r.checkpointDirLock.Unlock()
 				if err != nil {
 					dbLog.Infof("save checkpoint failed: %v", err)
@@ -889,6 +928,10 @@ func (r *RockDB) isBackupOKInPath(backupDir string, term uint64, index uint64) (
 	if os.IsNotExist(err) {
 		dbLog.Infof("checkpoint not exist: %v", fullPath)
 		return false, err
+	}
+	if isCheckpointIncomplete(fullPath) {
+		dbLog.Infof("checkpoint is incomplete (interrupted backup or transfer): %v", fullPath)
+		return false, errBackupIncomplete
 	}
 	if r.rockEng == nil {
 		return false, errDBClosed
